@@ -9,6 +9,9 @@ use anoncreds::data_types::rev_reg_def::{RevocationRegistryDefinition, Revocatio
 use anoncreds::data_types::schema::{Schema, SchemaId};
 use anoncreds::data_types::w3c::credential_attributes::CredentialAttributeValue;
 use anoncreds::data_types::w3c::presentation::W3CPresentation;
+use anoncreds::data_types::w3c::credential::CredentialProof;
+use anoncreds::data_types::w3c::proof::DataIntegrityProofValue;
+use anoncreds::data_types::w3c::one_or_many::OneOrMany;
 use anoncreds::types::RevocationStatusList;
 use serde_json::{json, Value};
 use std::collections::HashMap;
@@ -262,7 +265,16 @@ pub fn abs_pres_w3c(p: &W3CPresentation, ghosts: &[Value], agg: &Value, validate
         };
         let di = proofs.iter().find(|x| x["cryptosuite"] == "anoncreds-2023");
         let vm = di.map(|x| x["verificationMethod"].as_str().unwrap_or("").to_string()).unwrap_or_default();
-        match vc.get_credential_presentation_proof() {
+        // what the proof is, read off the object itself (not through the library's accessors, which are part of what is checked): the
+        // first AnonCreds data-integrity proof, its purpose, and which kind of value it carries
+        let di_typed = match &vc.proof {
+            OneOrMany::One(CredentialProof::AnonCredsDataIntegrityProof(x)) => Some(x),
+            OneOrMany::Many(v) => v.iter().find_map(|c| if let CredentialProof::AnonCredsDataIntegrityProof(x) = c { Some(x) } else { None }),
+            _ => None,
+        };
+        let purpose_ok = di.map(|x| x["proofPurpose"] == "assertionMethod").unwrap_or(false);
+        let as_pres_proof = di_typed.and_then(|x| if let DataIntegrityProofValue::CredentialPresentation(pv) = x.get_proof_value() { Some(pv) } else { None });
+        match (if purpose_ok { as_pres_proof } else { None }).ok_or(()) {
             Ok(pv) => {
                 let subj = serde_json::to_value(&pv.sub_proof).ok()?;
                 creds.push(json!({"issuer": vc.issuer.0, "subject": subject, "proof_ok": true, "verification_method": vm,
@@ -278,7 +290,8 @@ pub fn abs_pres_w3c(p: &W3CPresentation, ghosts: &[Value], agg: &Value, validate
             }
         }
     }
-    let pres_proof_ok = p.get_presentation_proof().is_ok();
+    let pj = serde_json::to_value(&p.proof).ok()?;
+    let pres_proof_ok = pj["proofPurpose"] == "authentication" && matches!(p.proof.get_proof_value(), DataIntegrityProofValue::Presentation(_));
     Some(json!({"validate_ok": validate_ok, "creds": creds, "pres_proof_ok": pres_proof_ok, "agg": agg}))
 }
 
